@@ -63,6 +63,7 @@ type FuncContract struct {
 	Havoc    bool // site mode: loops cut with true (default anyway)
 	Frozen   []string
 	Inline   bool
+	PerReturn bool
 }
 
 type Monitor struct {
@@ -71,6 +72,7 @@ type Monitor struct {
 	MutexField string
 	Guards     []string
 	Invariants []*Clause
+	Transitions []*Clause
 	Immutable  []string
 	Props      []string
 	GuardHeaps []string // whole heaps havocked at Lock (other types' fields)
@@ -350,8 +352,12 @@ func (db *ContractDB) loadContractFile(path string, pkgPath string, src []byte) 
 			curF.Pure = true
 		case "inline":
 			curF.Inline = true
+		case "perreturn":
+			curF.PerReturn = true
 		case "safety":
 			curF.Safety = true
+		case "trusted-assumption":
+			db.Trusted = append(db.Trusted, fmt.Sprintf("assumption in %s: %s (%s:%d)", curF.Key, rest, filepath.Base(path), rl.line))
 		case "trusted":
 			curF.Trusted = true
 			db.Trusted = append(db.Trusted, fmt.Sprintf("assumed (unverified) contract on %s: %s (%s:%d)", curF.Key, rest, filepath.Base(path), rl.line))
@@ -447,6 +453,12 @@ func (db *ContractDB) loadContractFile(path string, pkgPath string, src []byte) 
 				return err
 			}
 			curM.Invariants = append(curM.Invariants, c)
+		case "transition":
+			c, err := mkClause(rest, rl.line)
+			if err != nil {
+				return err
+			}
+			curM.Transitions = append(curM.Transitions, c)
 		case "site":
 			// site <label>: before|after call <callee> [#n] | at return | at store <field>
 			if curF == nil {
